@@ -13,6 +13,9 @@ use std::task::{Context, Poll};
 #[derive(Clone, Debug)]
 pub enum Ev {
     Open(usize),
+    /// the request declares `content-length: 3`: every DATA frame of the model on this stream that is not empty makes the
+    /// body too long, an END_STREAM before that too short - stream errors whose octets are flow-controlled all the same
+    OpenCl(usize),
     Data(usize, usize, Option<u8>, bool),
     PeerRst(usize),
     DataOnNeverOpened,
@@ -58,10 +61,18 @@ const SIDS: [u32; 3] = [1, 3, 5];
 
 impl ReceiverModel {
     pub fn new(name: &'static str, quick: bool) -> ReceiverModel {
+        Self::new_variant(name, quick, false)
+    }
+    /// `cl`: a single stream whose request declares a content-length that the model's DATA frames violate
+    pub fn new_variant(name: &'static str, quick: bool, cl: bool) -> ReceiverModel {
         let mut ev = vec![];
-        let n = if quick { 2 } else { 3 };
+        let n = if cl { 1 } else if quick { 2 } else { 3 };
         for k in 0..n {
-            ev.push(Ev::Open(k));
+            if cl {
+                ev.push(Ev::OpenCl(k));
+            } else {
+                ev.push(Ev::Open(k));
+            }
             for &len in if quick { &[0usize, 16384][..] } else { &[0usize, 1, 7, 16384][..] } {
                 ev.push(Ev::Data(k, len, None, false));
             }
@@ -166,7 +177,7 @@ impl Model for ReceiverModel {
         let has_any = |k: usize| t.accepted.iter().any(|a| a.sid == w.streams[k].sid && (a.body.is_some() || a.respond.is_some() || a.send.is_some()));
         match &self.events[e] {
             // the peer opens streams in identifier order
-            Ev::Open(k) => !w.streams[*k].opened && (0..*k).all(|j| w.streams[j].opened),
+            Ev::Open(k) | Ev::OpenCl(k) => !w.streams[*k].opened && (0..*k).all(|j| w.streams[j].opened),
             // a legal peer stays inside the windows it has been granted and does not send after its own end / reset
             Ev::Data(k, len, pad, _) => {
                 let s = &w.streams[*k];
@@ -192,6 +203,12 @@ impl Model for ReceiverModel {
             Ev::Open(k) => {
                 let sid = w.streams[k].sid;
                 t.peer_request(sid, "/r", false);
+                w.streams[k].opened = true;
+            }
+            Ev::OpenCl(k) => {
+                let sid = w.streams[k].sid;
+                let b = T2::block(&[(":method", "POST"), (":scheme", "http"), (":authority", "h.example"), (":path", "/r"), ("content-length", "3")]);
+                t.peer_send(&wf::headers(sid, &b, false, true));
                 w.streams[k].opened = true;
             }
             Ev::Data(k, len, pad, eos) => {
@@ -669,8 +686,11 @@ pub fn run(ctx: &Ctx) -> Outcome {
     let mut out = Outcome::default();
     let quick = ctx.tier.is_quick();
     let m = ReceiverModel::new(if quick { "receiver-q" } else { "receiver-t" }, quick);
-    let rep = search(ctx, &m, "C03", if quick { 7 } else { 12 }, ctx.tier.budget_s(), true);
-    fill_outcome(&mut out, &[(m.name, &rep)]);
+    let rep = search(ctx, &m, "C03", if quick { 7 } else { 12 }, ctx.tier.budget_s() * 0.8, true);
+    // one stream whose DATA violates its declared content-length (stream errors on frames that are flow-controlled all the same)
+    let m2 = ReceiverModel::new_variant(if quick { "receiver-cl-q" } else { "receiver-cl-t" }, quick, true);
+    let rep2 = search(ctx, &m2, "C03", if quick { 7 } else { 11 }, ctx.tier.budget_s(), true);
+    fill_outcome(&mut out, &[(m.name, &rep), (m2.name, &rep2)]);
     out.set("exhaustive", json!(false));
     out.set("alphabet", json!(m.events.iter().map(|e| format!("{:?}", e)).collect::<Vec<_>>()));
     out.set("rule", json!("X2 on T2: breadth-first search (iterative deepening, canonical-digest de-duplication) over the real server receiving on up to 3 streams from a scripted peer that stays inside the windows it sees: DATA {1,16384 (+0,7)} plain / padded / END_STREAM, RST_STREAM, SETTINGS ACK timing; application poll_data (holding what it read), release all / one octet, drop RecvStream, drop all handles, send_reset, respond, set_target_window_size up/down, set_initial_window_size up/down. Invariant in every state: peer-view windows never above the largest configured size, no octet credited twice. Epilogue from every new state: release everything, let the peer exhaust the connection window through a stream that is still read, release that too, quiesce - the connection window must be back at its target and the carrier stream at the acknowledged initial window"));
@@ -679,6 +699,7 @@ pub fn run(ctx: &Ctx) -> Outcome {
     out.guard_nonzero("data octets received", out.coverage.get("mechanism_counters").and_then(|m| m.get("data_octets_received")).and_then(|v| v.as_u64()).unwrap_or(0));
     let mut vs = VioSet::default();
     vs.merge(rep.agg.vios);
+    vs.merge(rep2.agg.vios);
     fill_sweep(&mut out, &mut vs, quick);
     out.violations = vs.into_vec();
     out
@@ -697,6 +718,10 @@ pub fn replay(v: &serde_json::Value) -> Option<bool> {
         let m = ReceiverModel::new(if quick { "receiver-q" } else { "receiver-t" }, quick);
         if h == format!("x2.{}", m.name) {
             return Some(replay_model(&m, "C03", v));
+        }
+        let m2 = ReceiverModel::new_variant(if quick { "receiver-cl-q" } else { "receiver-cl-t" }, quick, true);
+        if h == format!("x2.{}", m2.name) {
+            return Some(replay_model(&m2, "C03", v));
         }
     }
     None
